@@ -83,6 +83,8 @@ def sensitivity(ck, prop, root):
 
 
 def main(argv=None):
+    # the interpreter spends about a dozen host frames per interpreted call; its own depth limit (interp.MAX_DEPTH) must be the one that fires
+    sys.setrecursionlimit(max(sys.getrecursionlimit(), 6000))
     ap = argparse.ArgumentParser(prog="check")
     ap.add_argument("prop")
     ap.add_argument("--tier", default=os.environ.get("VERIF_TIER", "quick"), choices=["quick", "thorough"])
